@@ -32,6 +32,9 @@ OF THIS SOFTWARE, EVEN IF ADVISED OF THE POSSIBILITY OF SUCH DAMAGE.
 #include <cstring>
 #include <vector>
 #include "jit_compiler.hpp"
+#ifdef RANDOMX_VERIF
+#include "verif_hooks.hpp"
+#endif
 
 namespace randomx {
 
@@ -41,6 +44,9 @@ namespace randomx {
 	class Instruction;
 
 	class JitCompilerRV64 {
+#ifdef RANDOMX_VERIF
+		friend struct randomx_verif::Access;
+#endif
 	public:
 		JitCompilerRV64();
 		~JitCompilerRV64();
